@@ -164,7 +164,7 @@ Proof. revert n. induction l as [|x l IH]; intros n H; [rewrite firstn_nil; cons
 
 (* ---------- the patcher ---------- *)
 Definition pods_used (i : lp_input) : list pod :=
-  match i_filter i with FNone => i_pods i | FUnordered => filter_unordered i end.
+  match pods_used_opt i with Some l => l | None => [] end.
 Definition incs (i : lp_input) : list Z := planned_increments (i_batches i) (i_replicas i) (i_cur i).
 
 Lemma patch_ok_inv i ws : patch_pod_batch_label i = Ok ws -> ws <> [] ->
@@ -175,6 +175,7 @@ Lemma patch_ok_inv i ws : patch_pod_batch_label i = Ok ws -> ws <> [] ->
 Proof.
   unfold patch_pod_batch_label, pods_used, incs. intros H Hne.
   destruct (sempty (i_rid i) || (zlen (i_pods i) =? 0)); [inversion H; congruence|].
+  destruct (pods_used_opt i) as [pu|]; [|discriminate].
   destruct ((i_cur i <? 0) || (zlen (i_batches i) <=? i_cur i)); [discriminate|].
   destruct (scan_pods _ _ _ _ _) as [plan unp ho| |] eqn:Hs; try discriminate.
   destruct (assign _ _ _) as [ws1 lft] eqn:Ha. inversion H; subst.
@@ -280,10 +281,26 @@ Proof. induction pods as [|p pods IH]; intros plan unp ho; cbn [scan_pods]; [dis
 
 (* C12, clause "arbitrary label values are tolerated": for any label strings whatsoever the patcher
    does not panic (the executor only calls it with 0 <= currentBatch < len(batches)) *)
-Theorem patch_total i : (0 <=? i_cur i) && (i_cur i <? zlen (i_batches i)) = true -> patch_pod_batch_label i <> Panic.
+(* the ordered filter (StatefulSets) parses the ordinal out of the pod name: names are "<statefulset>-<ordinal>" *)
+Definition names_ok (i : lp_input) : bool :=
+  match i_filter i with
+  | FOrdered _ => forallb (fun p => match sort_key p with Some _ => true | None => false end) (i_pods i)
+  | _ => true
+  end.
+Lemma names_ok_some i : names_ok i = true -> pods_used_opt i <> None.
 Proof.
-  intros Hd. apply andb_true_iff in Hd. destruct Hd as [H1 H2]. apply Z.leb_le in H1. apply Z.ltb_lt in H2.
+  unfold names_ok, pods_used_opt. destruct (i_filter i) as [| |dp]; try discriminate. intros H. unfold filter_ordered.
+  replace (existsb (fun p => match sort_key p with None => true | Some _ => false end) (i_pods i)) with false.
+  2:{ symmetry. apply not_true_is_false. intros He. apply existsb_exists in He. destruct He as [p [Hp Hk]].
+      rewrite forallb_forall in H. specialize (H p Hp). destruct (sort_key p); discriminate. }
+  cbn [andb]. destruct (_ <=? 0); discriminate.
+Qed.
+
+Theorem patch_total i : (0 <=? i_cur i) && (i_cur i <? zlen (i_batches i)) = true -> names_ok i = true -> patch_pod_batch_label i <> Panic.
+Proof.
+  intros Hd Hn. apply names_ok_some in Hn. apply andb_true_iff in Hd. destruct Hd as [H1 H2]. apply Z.leb_le in H1. apply Z.ltb_lt in H2.
   unfold patch_pod_batch_label. destruct (sempty (i_rid i) || (zlen (i_pods i) =? 0)); [discriminate|].
+  destruct (pods_used_opt i) as [pu|]; [|congruence].
   replace ((i_cur i <? 0) || (zlen (i_batches i) <=? i_cur i)) with false.
   2:{ symmetry. apply orb_false_iff. split; [apply Z.ltb_ge|apply Z.leb_gt]; lia. }
   destruct (scan_pods _ _ _ _ _) eqn:Hs; try discriminate.
@@ -387,4 +404,57 @@ Proof.
     assert (Hin : In (Z.of_nat k, x) (rev (number_from 0 plan))).
     { apply -> in_rev. replace (Z.of_nat k) with (0 + Z.of_nat k) by lia. apply number_from_nth. exact Hx. }
     rewrite (Hall _ _ Hin). rewrite <- (Hn k Hk). rewrite (nth_error_nth _ _ _ Hx). reflexivity.
+Qed.
+
+(* ---------- the ordered filter (StatefulSets): the listing order of the pods is irrelevant ---------- *)
+Require Import Coq.Sorting.Permutation.
+Definition with_pods (i : lp_input) (l : list pod) : lp_input :=
+  {| i_batches := i_batches i; i_replicas := i_replicas i; i_cur := i_cur i; i_rid := i_rid i; i_rev := i_rev i; i_pods := l;
+     i_filter := i_filter i; i_desired := i_desired i; i_planned := i_planned i |}.
+
+Lemma insert_comm x y : key0 x <> key0 y -> forall s, insert_by x (insert_by y s) = insert_by y (insert_by x s).
+Proof.
+  intros Hne. induction s as [|h t IH]; cbn [insert_by].
+  - destruct (key0 x <=? key0 y) eqn:E1, (key0 y <=? key0 x) eqn:E2; try reflexivity; lia.
+  - destruct (key0 y <=? key0 h) eqn:Ey, (key0 x <=? key0 h) eqn:Ex; cbn [insert_by]; rewrite ?Ey, ?Ex.
+    + destruct (key0 x <=? key0 y) eqn:E1, (key0 y <=? key0 x) eqn:E2; try reflexivity; lia.
+    + destruct (key0 x <=? key0 y) eqn:E1; [lia|]. reflexivity.
+    + destruct (key0 y <=? key0 x) eqn:E1; [lia|]. reflexivity.
+    + rewrite IH. reflexivity.
+Qed.
+
+Lemma sort_perm l l' : Permutation l l' -> NoDup (map key0 l) -> sort_by_ordinal l = sort_by_ordinal l'.
+Proof.
+  induction 1 as [|x l l' Hp IH|x y l|l l' l'' Hp1 IH1 Hp2 IH2]; intros Hnd.
+  - reflexivity.
+  - cbn [sort_by_ordinal fold_right]. cbn [map] in Hnd. inversion Hnd; subst. unfold sort_by_ordinal in IH. rewrite IH by assumption. reflexivity.
+  - cbn [sort_by_ordinal fold_right]. cbn [map] in Hnd. inversion Hnd as [|? ? Hn ?]; subst.
+    apply insert_comm. intros He. apply Hn. left. symmetry. exact He.
+  - rewrite IH1 by assumption. apply IH2. eapply Permutation_NoDup; [apply Permutation_map; exact Hp1|exact Hnd].
+Qed.
+
+Lemma existsb_perm {A} (f : A -> bool) l l' : Permutation l l' -> existsb f l = existsb f l'.
+Proof. induction 1; cbn [existsb]; try congruence. destruct (f x), (f y); reflexivity. Qed.
+
+Lemma scan_pods_with i l l' : forall pods plan unp ho, scan_pods (with_pods i l) pods plan unp ho = scan_pods (with_pods i l') pods plan unp ho.
+Proof.
+  induction pods as [|p pods IH]; intros plan unp ho; [reflexivity|]. cbn [scan_pods].
+  change (classify (with_pods i l) p) with (classify (with_pods i l') p).
+  destruct (classify (with_pods i l') p); try apply IH; try reflexivity.
+  destruct (dec_plan plan b); [apply IH|reflexivity].
+Qed.
+
+(* C12 "repeating the labelling pass changes nothing", for StatefulSets also when the second pass lists the pods in another
+   order (an informer cache promises none): with the ordered filter the writes do not depend on the order at all *)
+Theorem ordered_filter_ignores_listing_order i dp l l' : i_filter i = FOrdered dp -> Permutation l l' -> NoDup (map key0 l) ->
+  patch_pod_batch_label (with_pods i l) = patch_pod_batch_label (with_pods i l').
+Proof.
+  intros Hf Hp Hnd. unfold patch_pod_batch_label, pods_used_opt. cbn [with_pods i_rid i_pods i_filter i_cur i_batches i_replicas].
+  rewrite Hf. unfold zlen. rewrite (Permutation_length Hp).
+  destruct (sempty (i_rid i) || _); [reflexivity|].
+  unfold filter_ordered. cbn [with_pods i_rid i_pods i_filter i_cur i_batches i_replicas i_rev i_planned].
+  rewrite (existsb_perm _ _ _ Hp), (sort_perm _ _ Hp Hnd). unfold zlen. rewrite (Permutation_length Hp).
+  destruct (existsb _ l' && _); [reflexivity|].
+  match goal with |- match (if ?a then _ else _) with _ => _ end = _ => destruct a end;
+    (destruct (_ || _); [reflexivity|]); rewrite (scan_pods_with i l l'); reflexivity.
 Qed.
